@@ -89,6 +89,21 @@ func (x *Exec) VerifyLemma(fn *ssa.Function) (err error) {
 	}
 	x.stack = []*ssa.Function{fn}
 	before := len(x.Obls)
+	if x.Opt.Paths {
+		ends := 0
+		var endPCs []*Term
+		x.ExecPaths(fr, st, func(out *State, _ Value) {
+			ends++
+			endPCs = append(endPCs, out.PC)
+		})
+		if ends == 0 {
+			return fmt.Errorf("lemma %s: no path reaches the end of the lemma", fn.Name())
+		}
+		// vacuity guard: some complete path is feasible
+		x.addCover(&State{PC: x.C.Or(endPCs...)}, "end", fn.Pos(), "lemma assumptions are satisfiable and some path completes the lemma body")
+		x.Notes.Bounds[fmt.Sprintf("%s: executed path by path (%d complete paths)", fn.Name(), ends)] = true
+		return nil
+	}
 	_, out := x.ExecFunc(fr, st)
 	// vacuity guard: the end of the lemma must be reachable under its assumptions
 	x.addCover(out, "end", fn.Pos(), "lemma assumptions are satisfiable and the lemma body can complete")
@@ -161,7 +176,27 @@ func (x *Exec) isSpecFunc(fn *ssa.Function) bool {
 		return false
 	}
 	file := filepath.Base(x.Prog.Fset.Position(fn.Pos()).Filename)
-	return strings.HasPrefix(file, "zz_verif_spec") && !strings.HasPrefix(fn.Name(), "verifLemma_")
+	if !strings.HasPrefix(file, "zz_verif_spec") || strings.HasPrefix(fn.Name(), "verifLemma_") {
+		return false
+	}
+	// helpers that allocate (build values for lemmas) are ordinary code, executed in the caller's state
+	for _, b := range fn.Blocks {
+		for _, ins := range b.Instrs {
+			switch i := ins.(type) {
+			case *ssa.MakeInterface, *ssa.MakeSlice, *ssa.MakeMap, *ssa.MakeClosure, *ssa.Store, *ssa.MapUpdate:
+				return false
+			case *ssa.Alloc:
+				if i.Heap {
+					return false
+				}
+			case *ssa.Call:
+				if bi, ok := i.Call.Value.(*ssa.Builtin); ok && (bi.Name() == "append" || bi.Name() == "copy") {
+					return false
+				}
+			}
+		}
+	}
+	return true
 }
 
 func isSelfRecursive(fn *ssa.Function) bool {
